@@ -84,6 +84,17 @@ type g2lTarget struct {
 	// can then say what the function does to the caller's map. Re-pointing is accepted only to a value created
 	// in this function (a local holding one is treated as moved: later in-place updates through it are refused).
 	sharedMaps []string
+	// rangeCopies: the elements of every slice this function ranges over are struct VALUES (not pointers), so a
+	// `for _, x := range` value variable is the function's own copy and `x.F = v` stays local. The translator
+	// cannot see element types; the claim belongs to the trusted base of the theorem that uses the translation.
+	rangeCopies bool
+	// zeroFill: a struct literal names only some fields, the others have Go's zero value: spelled
+	// `{ (default : T) with f := .. }` (the Lean structure then needs an `Inhabited` instance whose
+	// default is the zero value - `deriving Inhabited` gives that for strings, ints, lists, options)
+	zeroFill bool
+	// mutParams: parameters of the Lean definition the translated text assigns to (variables of the enclosing
+	// function in a part, Go parameters passed by value): re-bound as `let mut x := x` at the top
+	mutParams []string
 }
 
 type g2l struct {
@@ -116,7 +127,7 @@ var leanReserved = map[string]bool{"end": true, "from": true, "at": true, "open"
 	"Type": true, "Prop": true, "Sort": true, "set_option": true, "mut": true, "return": true, "class": true, "deriving": true,
 	"universe": true, "example": true, "abbrev": true, "inductive": true, "mutual": true, "private": true, "protected": true,
 	"partial": true, "unsafe": true, "noncomputable": true, "attribute": true, "export": true, "local": true, "scoped": true,
-	"calc": true, "suffices": true, "obtain": true, "using": true, "nomatch": true, "nofun": true, "extends": true, "true": false, "false": false}
+	"exists": true, "forall": true, "calc": true, "suffices": true, "obtain": true, "using": true, "nomatch": true, "nofun": true, "extends": true, "true": false, "false": false}
 
 func g2lIdent(s string) string {
 	if leanReserved[s] {
@@ -500,6 +511,9 @@ func (g *g2l) composite(x *ast.CompositeLit) string {
 			fv = "(some " + fv + ")"
 		}
 		fs = append(fs, g2lIdent(kv.Key.(*ast.Ident).Name)+" := "+fv)
+	}
+	if g.t.zeroFill {
+		return "({ (default : " + tn + ") with " + strings.Join(fs, ", ") + " } : " + tn + ")"
 	}
 	return "({ " + strings.Join(fs, ", ") + " } : " + tn + ")"
 }
@@ -1196,6 +1210,9 @@ func (g *g2l) rangeStmt(o *g2lOut, ind int, x *ast.RangeStmt) {
 		o.line(ind, fmt.Sprintf("for (%s, %s) in GoLite.enum %s do", k, v, coll))
 	}
 	if rebind != "" {
+		if g.t.rangeCopies {
+			g.owned[exprText(x.Value)] = true
+		}
 		o.line(ind+1, "let mut "+rebind+" := "+v)
 	}
 	g.inLoop++
@@ -1459,6 +1476,14 @@ func g2lTranslate(t *g2lTarget) string {
 	if t.closureOf != "" {
 		var lit *ast.FuncLit
 		ast.Inspect(fd.Body, func(n ast.Node) bool {
+			// closureOf "return": the function literal the function returns (a constructor of a closure)
+			if r, ok := n.(*ast.ReturnStmt); ok && t.closureOf == "return" {
+				for _, a := range r.Results {
+					if fl, ok := a.(*ast.FuncLit); ok {
+						lit = fl
+					}
+				}
+			}
 			if c, ok := n.(*ast.CallExpr); ok && g2lCallMatches(c, t.closureOf) {
 				for _, a := range c.Args {
 					if fl, ok := a.(*ast.FuncLit); ok {
@@ -1533,6 +1558,12 @@ func g2lTranslate(t *g2lTarget) string {
 	o.line(0, fmt.Sprintf("def %s %s : %s := Id.run do", t.leanName, t.params, t.ret))
 	for _, c := range t.captures {
 		o.line(1, "let mut "+g2lIdent(c)+" := "+g2lIdent(c))
+	}
+	for _, c := range t.mutParams {
+		if !g.declared[c] {
+			g.declared[c] = true
+			o.line(1, "let mut "+g2lIdent(c)+" := "+g2lIdent(c))
+		}
 	}
 	if t.closureOf == "" && t.after == "" && fd.Type.Params != nil {
 		// a parameter the body assigns to is a mutable local, as in Go (captures are that already)
